@@ -43,16 +43,16 @@ TRUSTED = ["PyYAML safe_load/CDumper (oracle, tested per run)", "harness/tables/
 MANIFEST = dict(
     text="Coq model on YAML trees of QuaMap.read/write, _read_notes, the four from_yaml/to_yaml DataFrame pipelines and the "
          "metadata reader/writer; specification qua_denote/chart_denote/wf_qua_doc written from the format rules (DESIGN B.2). "
-         "Proved for all inputs: soundness of the read/write/round-trip oracles, written times within 1 ms and stable from the "
-         "second generation on, Tags split/join laws, the hit writer on lists with the declared columns, timing-point and "
-         "scroll-velocity reading per record, and the repaired note reader = qua_denote for all values on the record shapes "
-         "with omitted StartTime / KeySounds / Lane; _refuted theorems about the OLD reader model. The whole-document "
-         "read/write theorems are partial: on every run the model is compared in Coq with the implementation on generated "
-         "documents and in-memory charts (native and produced by the four converters), two generations deep, and the proven-sound "
-         "oracle is evaluated on the implementation's outputs.",
+         "Proved for all inputs of the stated domains: the reader returns exactly the chart the document denotes under the "
+         "format's defaults (any keys omitted in some or all records) and that chart is strict; the writer's document is "
+         "well-formed and denotes the chart with every time moved < 1 ms; both round trips as compositions; oracle soundness; "
+         "truncation/no-drift and Tags laws; _refuted theorems about the OLD reader/defaults models. On every run the model is "
+         "compared in Coq with the implementation on generated documents and in-memory charts (native and produced by the four "
+         "converters), two generations deep, and the proven-sound oracle is evaluated on the implementation's outputs.",
     note="Trusted: Coq kernel+VM, harness generator/serialiser, PyYAML as a tested oracle, live tables translator. "
-         "Only InitialScrollVelocity '' is a KNOWN-FINDING; the six repaired classes (4a9b03a, 3b9da0f, 736886e) are 'fixed' "
-         "and a recurrence raises a VIOLATION labelled regression:<key>.",
+         "All seven defect classes found on the pinned tree are repaired (4a9b03a, 3b9da0f, 736886e, e825b78) and recorded as "
+         "'fixed'; a recurrence raises a VIOLATION labelled regression:<key>. Not proved: whole-document generation stability, "
+         "oracle completeness, charts outside the strict domain (correspondence only).",
     technique="Coq proof over executable model + vm_compute correspondence and oracle on implementation output",
     design="4/C06, B.2")
 
